@@ -7,12 +7,17 @@
  *   mrt TAB <name of M> TAB <features: - | * | f1,f2> TAB <flags> TAB <def> TAB <def> ...
  *       def = <module or submodule name>:<y|x>:<hex text>      (y = YANG, x = YIN; the def named like M is M itself)
  *       flags: bit 0 = skip the round trip of the not-implemented (only imported) module
+ *              bit 1 = skip the checks that parse YIN (c2, c5): the module holds a construct of the listed finding
+ *                      yin-ext-nested-generic; the YIN PRINT is still compared (yang-yin, ni-yin)
  *              bit 2 = print Y0, X0 and C0 in front of the verdict (for looking at a case)
  *
  * Contexts (all new, import callback = the defs, in the re-parse contexts M's submodules are replaced by their prints):
  *   c0   M parsed from its text with the features                      -> Y0 (LYS_OUT_YANG), X0 (LYS_OUT_YIN),
  *        C0 (LYS_OUT_YANG_COMPILED of every implemented non-internal module), T0 (LYS_OUT_TREE), SY0[i] / SX0[i]
  *        (lys_print_submodule of every submodule, YANG / YIN)
+ *        D0 = a digest of the compiled structures written by this driver (dg_*: flags incl. presence, units, defaults,
+ *        descriptions, must / when, types with their restrictions, extension instances; NULL and "" told apart),
+ *        compared wherever C0 is (checks *-dig): the compiled printer shares helpers with the parsed one
  *   c0'  the same again                                                 det2-*: all of the above identical
  *   c1   Y0 (+ SY0[i]) parsed as YANG                                   yang-parse, yang-comp (C1 = C0), yang-fix (Y1 = Y0),
  *                                                                       yang-sub (SY1[i] = SY0[i]), yang-tree, yang-yin (X1 = X0)
@@ -33,6 +38,7 @@
  */
 #include "common.h"
 
+#include <stdarg.h>
 #include <sys/wait.h>
 #include <unistd.h>
 
@@ -120,7 +126,7 @@ feat_list(const char *spec)
 struct prints {
     struct ly_ctx *ctx;
     struct lys_module *mod;
-    char *yang, *yin, *comp, *tree;
+    char *yang, *yin, *comp, *tree, *dig;
     int nsub;
     char *subname[NSUB];
     char *suby[NSUB], *subx[NSUB];
@@ -137,6 +143,7 @@ prints_free(struct prints *p)
     free(p->yin);
     free(p->comp);
     free(p->tree);
+    free(p->dig);
     for (int i = 0; i < p->nsub; i++) {
         free(p->subname[i]);
         free(p->suby[i]);
@@ -319,6 +326,304 @@ has_toplevel_plain_ext(const struct lys_module *mod)
     return 0;
 }
 
+
+/* ---- digest of the COMPILED structures, written here from the lysc_* structures themselves: the compiled YANG printer
+ * shares its helpers with the parsed one, so a statement both drop (default "", presence "") is invisible in a comparison
+ * of two compiled prints. NULL and the empty string are told apart (~ / -). ---- */
+static char *DG;
+
+static void
+dg(const char *fmt, ...)
+{
+    char tmp[512];
+    va_list ap;
+
+    va_start(ap, fmt);
+    vsnprintf(tmp, sizeof tmp, fmt, ap);
+    va_end(ap);
+    cat(&DG, tmp);
+}
+
+static void
+dg_str(const char *label, const char *s)
+{
+    static const char hx[] = "0123456789abcdef";
+    char *b;
+    size_t i, n;
+
+    if (!s) {
+        return;         /* (absent statements are left out, an empty argument gives label=-) */
+    }
+    n = strlen(s);
+    b = malloc(strlen(label) + 2 * n + 8);
+    sprintf(b, " %s=", label);
+    i = strlen(b);
+    if (!n) {
+        b[i++] = '-';
+    }
+    for (size_t k = 0; k < n; k++) {
+        b[i++] = hx[(unsigned char)s[k] >> 4];
+        b[i++] = hx[(unsigned char)s[k] & 15];
+    }
+    b[i] = 0;
+    cat(&DG, b);
+    free(b);
+}
+
+static void
+dg_exts(const struct lysc_ext_instance *exts)
+{
+    LY_ARRAY_COUNT_TYPE u;
+    uint64_t key, cur = 0, next;
+    int first = 1;
+
+    /* the array holds the instances of the statement and of its substatements in source order; only the order among
+     * the instances of one (sub)statement means something: grouped by (sub)statement, array order inside a group */
+    while (1) {
+        next = UINT64_MAX;
+        LY_ARRAY_FOR(exts, u) {
+            key = ((uint64_t)exts[u].parent_stmt << 16) | (uint64_t)exts[u].parent_stmt_index;
+            if ((first || (key > cur)) && (key < next)) {
+                next = key;
+            }
+        }
+        if (next == UINT64_MAX) {
+            break;
+        }
+        first = 0;
+        cur = next;
+        LY_ARRAY_FOR(exts, u) {
+            key = ((uint64_t)exts[u].parent_stmt << 16) | (uint64_t)exts[u].parent_stmt_index;
+            if (key != cur) {
+                continue;
+            }
+            dg(" ext(%s:%s/%d.%d", exts[u].def->module->name, exts[u].def->name, (int)exts[u].parent_stmt,
+                    (int)exts[u].parent_stmt_index);
+            dg_str("arg", exts[u].argument);
+            dg_exts(exts[u].exts);
+            dg(")");
+        }
+    }
+}
+
+static void
+dg_range(const char *label, const struct lysc_range *r, int is_signed)
+{
+    LY_ARRAY_COUNT_TYPE u;
+
+    if (!r) {
+        return;
+    }
+    dg(" %s(", label);
+    LY_ARRAY_FOR(r->parts, u) {
+        if (is_signed) {
+            dg("%" PRId64 "..%" PRId64 "|", r->parts[u].min_64, r->parts[u].max_64);
+        } else {
+            dg("%" PRIu64 "..%" PRIu64 "|", r->parts[u].min_u64, r->parts[u].max_u64);
+        }
+    }
+    dg_str("emsg", r->emsg);
+    dg_str("eapptag", r->eapptag);
+    dg_str("dsc", r->dsc);
+    dg_str("ref", r->ref);
+    dg_exts(r->exts);
+    dg(")");
+}
+
+static void
+dg_type(const struct lysc_type *t, int depth)
+{
+    LY_ARRAY_COUNT_TYPE u;
+
+    dg(" type(%d", (int)t->basetype);
+    dg_exts(t->exts);
+    switch (t->basetype) {
+    case LY_TYPE_INT8: case LY_TYPE_INT16: case LY_TYPE_INT32: case LY_TYPE_INT64:
+        dg_range("range", ((struct lysc_type_num *)t)->range, 1);
+        break;
+    case LY_TYPE_UINT8: case LY_TYPE_UINT16: case LY_TYPE_UINT32: case LY_TYPE_UINT64:
+        dg_range("range", ((struct lysc_type_num *)t)->range, 0);
+        break;
+    case LY_TYPE_DEC64:
+        dg(" fd=%d", (int)((struct lysc_type_dec *)t)->fraction_digits);
+        dg_range("range", ((struct lysc_type_dec *)t)->range, 1);
+        break;
+    case LY_TYPE_BINARY:
+        dg_range("length", ((struct lysc_type_bin *)t)->length, 0);
+        break;
+    case LY_TYPE_STRING:
+        dg_range("length", ((struct lysc_type_str *)t)->length, 0);
+        LY_ARRAY_FOR(((struct lysc_type_str *)t)->patterns, u) {
+            const struct lysc_pattern *p = ((struct lysc_type_str *)t)->patterns[u];
+
+            dg(" pattern(%d", (int)p->inverted);
+            dg_str("expr", p->expr);
+            dg_str("emsg", p->emsg);
+            dg_str("eapptag", p->eapptag);
+            dg_str("dsc", p->dsc);
+            dg_str("ref", p->ref);
+            dg_exts(p->exts);
+            dg(")");
+        }
+        break;
+    case LY_TYPE_ENUM:
+    case LY_TYPE_BITS: {
+        const struct lysc_type_bitenum_item *it = (t->basetype == LY_TYPE_ENUM) ? ((struct lysc_type_enum *)t)->enums :
+                ((struct lysc_type_bits *)t)->bits;
+
+        LY_ARRAY_FOR(it, u) {
+            dg(" item(%" PRId64 "/%x", (t->basetype == LY_TYPE_ENUM) ? (int64_t)it[u].value : (int64_t)it[u].position,
+                    (unsigned)(it[u].flags & LYS_STATUS_MASK));
+            dg_str("name", it[u].name);
+            dg_str("dsc", it[u].dsc);
+            dg_str("ref", it[u].ref);
+            dg_exts(it[u].exts);
+            dg(")");
+        }
+        break;
+    }
+    case LY_TYPE_LEAFREF:
+        dg(" ri=%d", (int)((struct lysc_type_leafref *)t)->require_instance);
+        dg_str("path", lyxp_get_expr(((struct lysc_type_leafref *)t)->path));
+        break;
+    case LY_TYPE_INST:
+        dg(" ri=%d", (int)((struct lysc_type_instanceid *)t)->require_instance);
+        break;
+    case LY_TYPE_IDENT:
+        LY_ARRAY_FOR(((struct lysc_type_identityref *)t)->bases, u) {
+            dg(" base=%s:%s", ((struct lysc_type_identityref *)t)->bases[u]->module->name,
+                    ((struct lysc_type_identityref *)t)->bases[u]->name);
+        }
+        break;
+    case LY_TYPE_UNION:
+        LY_ARRAY_FOR(((struct lysc_type_union *)t)->types, u) {
+            if (depth < 8) {
+                dg_type(((struct lysc_type_union *)t)->types[u], depth + 1);
+            }
+        }
+        break;
+    default:
+        break;
+    }
+    dg(")");
+}
+
+static LY_ERR
+dg_node(struct lysc_node *n, void *data, ly_bool *dfs_continue)
+{
+    LY_ARRAY_COUNT_TYPE u, v;
+    const struct lysc_must *musts = lysc_node_musts(n);
+    struct lysc_when **whens = lysc_node_when(n);
+    const struct ly_ctx *ctx = n->module->ctx;
+    const struct lysc_node *p;
+
+    (void)data; (void)dfs_continue;
+    for (p = n; p; p = p->parent) {
+        dg("/");
+    }
+    dg("%s:%s t=%x f=%x", n->module->name, n->name ? n->name : "", (unsigned)n->nodetype,
+            (unsigned)(n->flags & (LYS_CONFIG_MASK | LYS_STATUS_MASK | LYS_MAND_MASK | LYS_PRESENCE | LYS_KEY | LYS_ORDBY_USER |
+            LYS_KEYLESS | LYS_SET_DFLT)));
+    dg_str("dsc", n->dsc);
+    dg_str("ref", n->ref);
+    dg_exts(n->exts);
+    LY_ARRAY_FOR(musts, u) {
+        dg(" must(");
+        dg_str("cond", lyxp_get_expr(musts[u].cond));
+        dg_str("emsg", musts[u].emsg);
+        dg_str("eapptag", musts[u].eapptag);
+        dg_str("dsc", musts[u].dsc);
+        dg_str("ref", musts[u].ref);
+        dg_exts(musts[u].exts);
+        dg(")");
+    }
+    LY_ARRAY_FOR(whens, u) {
+        dg(" when(");
+        dg_str("cond", lyxp_get_expr(whens[u]->cond));
+        dg_str("dsc", whens[u]->dsc);
+        dg_str("ref", whens[u]->ref);
+        dg_exts(whens[u]->exts);
+        dg(")");
+    }
+    switch (n->nodetype) {
+    case LYS_LEAF: {
+        const struct lysc_node_leaf *l = (const struct lysc_node_leaf *)n;
+
+        dg_str("units", l->units);
+        if (l->dflt) {
+            dg_str("dflt", lyd_value_get_canonical(ctx, l->dflt));
+        }
+        dg_type(l->type, 0);
+        break;
+    }
+    case LYS_LEAFLIST: {
+        const struct lysc_node_leaflist *l = (const struct lysc_node_leaflist *)n;
+
+        dg(" min=%u max=%u", l->min, l->max);
+        dg_str("units", l->units);
+        LY_ARRAY_FOR(l->dflts, u) {
+            dg_str("dflt", lyd_value_get_canonical(ctx, l->dflts[u]));
+        }
+        dg_type(l->type, 0);
+        break;
+    }
+    case LYS_LIST: {
+        const struct lysc_node_list *l = (const struct lysc_node_list *)n;
+
+        dg(" min=%u max=%u", l->min, l->max);
+        LY_ARRAY_FOR(l->uniques, u) {
+            dg(" unique(");
+            LY_ARRAY_FOR(l->uniques[u], v) {
+                dg("%s,", l->uniques[u][v]->name);
+            }
+            dg(")");
+        }
+        break;
+    }
+    case LYS_CHOICE:
+        if (((const struct lysc_node_choice *)n)->dflt) {
+            dg(" dflt=%s", ((const struct lysc_node_choice *)n)->dflt->name);
+        }
+        break;
+    default:
+        break;
+    }
+    dg("\n");
+    return LY_SUCCESS;
+}
+
+/* digest of all implemented modules that are not internal ones */
+static char *
+digest_compiled(struct ly_ctx *ctx)
+{
+    uint32_t idx = ly_ctx_internal_modules_count(ctx);
+    struct lys_module *m;
+    LY_ARRAY_COUNT_TYPE u;
+
+    DG = strdup("");
+    while ((m = ly_ctx_get_module_iter(ctx, &idx))) {
+        if (!m->implemented || !m->compiled) {
+            continue;
+        }
+        dg("module %s", m->name);
+        dg_str("org", m->org);
+        dg_str("contact", m->contact);
+        dg_str("dsc", m->dsc);
+        dg_str("ref", m->ref);
+        dg_exts(m->compiled->exts);
+        dg("\n");
+        LY_ARRAY_FOR(m->identities, u) {
+            dg("identity %s f=%x", m->identities[u].name, (unsigned)(m->identities[u].flags & LYS_STATUS_MASK));
+            dg_str("dsc", m->identities[u].dsc);
+            dg_str("ref", m->identities[u].ref);
+            dg_exts(m->identities[u].exts);
+            dg("\n");
+        }
+        lysc_module_dfs_full(m, dg_node, NULL);
+    }
+    return DG;
+}
+
 static LY_ERR
 print_sub(const struct lysp_submodule *sub, LYS_OUTFORMAT fmt, char **res)
 {
@@ -356,6 +661,7 @@ print_all(struct prints *p, int compiled)
             set_err(p, "print-comp");
             return 1;
         }
+        p->dig = digest_compiled(p->ctx);
         switch (print_tree_isolated(p->mod, &p->tree)) {
         case 0:
             break;
@@ -621,6 +927,7 @@ do_case(const char *name, const char *feats, int flags)
         fail_msg("det2", q.errstep, q.err);
     } else {
         cmp_text("det2-comp", p0.comp, q.comp);
+        cmp_text("det2-dig", p0.dig, q.dig);
         TREE_CMP("det2-tree", p0, q);
         cmp_text("det2-yang", p0.yang, q.yang);
         cmp_text("det2-yin", p0.yin, q.yin);
@@ -633,6 +940,7 @@ do_case(const char *name, const char *feats, int flags)
         fail_msg("yang-parse", q.errstep, q.err);
     } else {
         cmp_text("yang-comp", p0.comp, q.comp);
+        cmp_text("yang-dig", p0.dig, q.dig);
         cmp_text("yang-fix", p0.yang, q.yang);
         cmp_subs("yang-sub", &p0, &q, 0);
         TREE_CMP("yang-tree", p0, q);
@@ -642,10 +950,13 @@ do_case(const char *name, const char *feats, int flags)
 
     /* YIN round trip */
     env_subs(&e, &p0, 1);
-    if (load_impl(&q, &e, p0.yin, LYS_IN_YIN, feats)) {
+    if (flags & 2) {
+        memset(&q, 0, sizeof q);
+    } else if (load_impl(&q, &e, p0.yin, LYS_IN_YIN, feats)) {
         fail_msg("yin-parse", q.errstep, q.err);
     } else {
         cmp_text("yin-comp", p0.comp, q.comp);
+        cmp_text("yin-dig", p0.dig, q.dig);
         cmp_text("yin-fix", p0.yin, q.yin);
         cmp_subs("yin-sub", &p0, &q, 1);
         TREE_CMP("yin-tree", p0, q);
@@ -685,7 +996,9 @@ do_case(const char *name, const char *feats, int flags)
             e.ov[e.nov].text = q.yin;
             e.ov[e.nov].fmt = LYS_IN_YIN;
             ++e.nov;
-            if (load_ni(&r, &e, name)) {
+            if (flags & 2) {
+                memset(&r, 0, sizeof r);
+            } else if (load_ni(&r, &e, name)) {
                 fail_msg("ni-yin-parse", r.errstep, r.err);
             } else {
                 cmp_text("ni-yin-fix", q.yin, r.yin);
